@@ -6,7 +6,7 @@ namespace HmsProofs.Sim
 open Hms.Core Hms.Core.Comp Hms.Core.VM
 
 theorem pgl_zero (G : GCtx) : PGL G 0 := by
-  intro A hA loops lscopes d sp cnd body env spec ip stk mem _ _ _ _ _ _ _ _
+  intro A hA loops lscopes d sp cnd body env spec ip stk mem _ _ _ _ _ _ _ _ _
   rw [loopRun]; trivial
 
 /-- Rebuild the invariant at the loop level from the scope relation (everything else is static). -/
@@ -18,7 +18,7 @@ theorem pgl_step (G : GCtx) (n : Nat) (hPE : PE G n) (hPB : PGBS G n) (hPL : PGL
   intro A hA loops lscopes d sp cnd body env spec ip stk mem
   cases cnd with
   | some c =>
-    intro stmt hs hT hws hN hpl hrel hsp
+    intro stmt hs hT hws hN hpl hls hrel hsp
     have hs' := hs
     simp only [stmt, Frag.okGS, Bool.and_eq_true] at hs'
     obtain ⟨hcnd, hbody⟩ := hs'
@@ -54,7 +54,7 @@ theorem pgl_step (G : GCtx) (n : Nat) (hPE : PE G n) (hPB : PGBS G n) (hPL : PGL
     rcases hev : evalExpr G.cfg n c spec with ⟨r1, st1⟩
     rw [hev] at h1
     cases r1 with
-    | error ce' => cases ce' <;> first | trivial | exact h1.elim | exact h1
+    | error ce' => exact SimGS.of_exprError _ hrel hls h1
     | ok v =>
       obtain ⟨hfr, mem1, hrun, hml⟩ := h1
       have hsp1 := hsp.world st1 hfr
@@ -96,7 +96,7 @@ theorem pgl_step (G : GCtx) (n : Nat) (hPE : PE G n) (hPB : PGBS G n) (hPL : PGL
           intro s' mem2 hfr2 hround hml2 hsr
           have hsp2 := hsp1.scopes_out s' hfr2
           have hrel2 := hrel.of_scopes hsr
-          have hloop := hPL A hA loops lscopes d sp (some c) body env s' ip stk mem2 hs hT hws hN hpl hrel2 hsp2
+          have hloop := hPL A hA loops lscopes d sp (some c) body env s' ip stk mem2 hs hT hws hN hpl hls hrel2 hsp2
           simp only [cgS, hH, hA', hC, hB, nI_append, hnL, hnX, hnY, Nat.zero_add] at hloop
           rcases hl : loopRun G.cfg n (some c) body s' with ⟨r3, s''⟩
           rw [hl] at hloop
@@ -125,14 +125,19 @@ theorem pgl_step (G : GCtx) (n : Nat) (hPE : PE G n) (hPB : PGBS G n) (hPL : PGL
             simp only []
             exact again s' mem2 hfr2 (hrunB.cast ehead) hml2 (by simpa using hsr)
           case ret v =>
-            obtain ⟨hfr2, mem2, hrunB, hml2⟩ := hb
-            exact ⟨by rw [hfr2, hfr], mem2, hpre.trans hrunB, hml0.trans hml2⟩
+            obtain ⟨hrt, hfr2, mem2, hrunB, hml2⟩ := hb
+            exact ⟨hrt, by rw [hfr2, hfr], mem2, hpre.trans hrunB, hml0.trans hml2⟩
           case fatal kd m fsp => exact fun hk => hpre.fatal (hb hk)
           case unsupported => trivial
           case timeout => trivial
-          case throw => exact hb.elim
+          case throw msg tsp =>
+            obtain ⟨hfr2, mem2, hT2, hml2, hsr⟩ := hb
+            simp only []
+            refine ⟨by rw [hfr2, hfr], mem2, Runs.throw [] hpre hT2, hml0.trans hml2, ?_⟩
+            rw [hls]
+            exact ScopesRel.drop d (by simpa using hsr)
   | none =>
-    intro stmt hs hT hws hN hpl hrel hsp
+    intro stmt hs hT hws hN hpl hls hrel hsp
     have hbody := hs
     simp only [stmt, Frag.okGS] at hbody
     have hwb := hws
@@ -175,7 +180,7 @@ theorem pgl_step (G : GCtx) (n : Nat) (hPE : PE G n) (hPB : PGBS G n) (hPL : PGL
       intro s' mem2 hfr2 hround hml2 hsr
       have hsp2 := hsp.scopes_out s' hfr2
       have hrel2 := hrel.of_scopes hsr
-      have hloop := hPL A hA loops lscopes d sp none body env s' ip stk mem2 hs hT hws hN hpl hrel2 hsp2
+      have hloop := hPL A hA loops lscopes d sp none body env s' ip stk mem2 hs hT hws hN hpl hls hrel2 hsp2
       simp only [cgS, hH, hA', hB, nI_append, hnL, hnY, Nat.zero_add] at hloop
       rcases hl : loopRun G.cfg n none body s' with ⟨r3, s''⟩
       rw [hl] at hloop
@@ -203,11 +208,16 @@ theorem pgl_step (G : GCtx) (n : Nat) (hPE : PE G n) (hPB : PGBS G n) (hPL : PGL
         simp only []
         exact again s' mem2 hfr2 (hrunB.cast ehead) hml2 (by simpa using hsr)
       case ret v =>
-        obtain ⟨hfr2, mem2, hrunB, hml2⟩ := hb
-        exact ⟨hfr2, mem2, hrunB, hml2⟩
+        obtain ⟨hrt, hfr2, mem2, hrunB, hml2⟩ := hb
+        exact ⟨hrt, hfr2, mem2, hrunB, hml2⟩
       case fatal kd m fsp => exact hb
       case unsupported => trivial
       case timeout => trivial
-      case throw => exact hb.elim
+      case throw msg tsp =>
+        obtain ⟨hfr2, mem2, hT2, hml2, hsr⟩ := hb
+        simp only []
+        refine ⟨hfr2, mem2, hT2, hml2, ?_⟩
+        rw [hls]
+        exact ScopesRel.drop d (by simpa using hsr)
 
 end HmsProofs.Sim
